@@ -191,9 +191,25 @@ def h_page_v1(levels: List[int], bit_width: int, page_bytes: int, groups: int) -
     if len(body) != 1 or body[0][0] != "hybrid":
         return False
     kind, w, length, cap, dtype, isz = body[0]
-    return w == bit_width and cap == nval and isz == (4 if bit_width > 8 else 1) and \
-        dtype == ("int32" if bit_width > 8 else "uint8")
+    # the output array must hold every index of this width without changing its value: unsigned with >= width bits or
+    # signed with > width bits (width 32 cannot occur with more than 2^31 dictionary entries: sizes are i32)
+    bits = {"uint8": (8, False), "int8": (8, True), "int32": (32, True), "int64": (64, True)}.get(dtype)
+    holds = bits is not None and (bits[0] >= bit_width + (1 if bits[1] else 0) or bit_width == 32)
+    return w == bit_width and cap == nval and isz == (4 if bit_width > 8 else 1) and (holds or nval == 0) and \
+        bits is not None and bits[0] == 8 * isz
 
 
 def replay_h_page_v1(levels, bit_width, page_bytes, groups):
-    return None, "page-level call-site harness: witnesses are replayed through the file-level drivers of C03"
+    """file-level replay: a column whose single v1 page has this null layout and (for dictionaries) this index width,
+    built from the specification and read through ParquetFile.to_pandas()"""
+    from vf.pyshim import flat_file
+    nulls = [x == 0 for x in levels]
+    if ENC == "dict" and not SELFMADE:
+        ok, info = flat_file.roundtrip_dict(nulls, bit_width, OPTIONAL)
+        return (not ok), info
+    if ENC in ("plain", "delta") and not OPTIONAL:
+        vals = [7 + 1000 * i for i in range(len(levels))]
+        ok, info = flat_file.roundtrip(vals, 64, 1, ENC == "delta")
+        return (not ok), info
+    return None, "no file-level driver for this page kind (encoding %s, optional=%s, selfmade=%s)" % (
+        ENC, OPTIONAL, SELFMADE)
